@@ -183,6 +183,21 @@ def generate(g, tier):
         for nm in names_:
             lines.append(f'    {nm}'); exp.append(f'STRING {env[nm]}')
         cases.append(dict(op='compile', src=dict(text='\n'.join(lines)), meta=dict(family='grouped-definitions', form='outs', expout=exp)))
+    # ... also when the value was changed, or the variable created, by an IMPORTED file (START / STARTENV) and nothing at the importer's own
+    # level assigned anything between two evaluations
+    for _ in range(count(tier, 40, 300)):
+        kw = r.choice(['START', 'STARTENV'])
+        v0, v1 = r.sample(range(1, 90), 2)
+        shape = r.choice(['reassign', 'create', 'in-block', 'twice'])
+        if shape == 'reassign':
+            main, lib, exp = f'VAR v {v0}\n$STRING v\n{kw} lib\n$STRING v\n$STRING v*2', f'VAR v {v1}', [f'STRING {v0}', f'STRING {v1}', f'STRING {v1 * 2}']
+        elif shape == 'create':
+            main, lib, exp = f'VAR a {v0}\n$STRING a\n{kw} lib\n$STRING made+a', f'VAR made {v1}', [f'STRING {v0}', f'STRING {v1 + v0}']
+        elif shape == 'in-block':
+            main, lib, exp = f'VAR v {v0}\nIF v == {v0}\n    $STRING v\n    {kw} lib\n    $STRING v\n$STRING v', f'VAR v v+{v1}', [f'STRING {v0}', f'STRING {v0 + v1}', f'STRING {v0 + v1}']
+        else:
+            main, lib, exp = f'VAR v {v0}\n$STRING v\n{kw} lib\n$STRING v\n{kw} lib\n$STRING v', 'VAR v v+1', [f'STRING {v0}', f'STRING {v0 + 1}', f'STRING {v0 + 2}']
+        cases.append(dict(op='compile_file', file='proj/main.txt', files={'proj/main.txt': main, 'proj/lib.txt': lib}, meta=dict(family='value-after-import', form='outs', expout=exp)))
     # ... and their current TYPE: the same text after the variable went from 1 to TRUE, 0 to FALSE, to a decimal, to a string
     TYPED = [('1', '1'), ('TRUE', 'True'), ('0', '0'), ('FALSE', 'False'), ('2.5', '2.5'), ('"s"', 's'), ('2', '2'), ('""', ''), ('1.0', '1')]
     for _ in range(count(tier, 60, 600)):
